@@ -39,6 +39,12 @@ func (*MixedValueNode) SetRealType(string) bool {
 func (n *MixedValueNode) AddConstraint(c constraint.Constraint) {
 	switch t := c.(type) {
 	case *constraint.TypeConstraint:
+		// A "type" rule may replace the type generated from the shortcut, but
+		// not another hand-written "type" rule, whatever their values are.
+		if exists, ok := n.constraints.Get(constraint.TypeConstraintType); ok &&
+			!exists.(*constraint.TypeConstraint).IsGenerated() {
+			panic(errors.Format(errors.ErrDuplicateRule, t.Type().String()))
+		}
 		n.addTypeConstraint(t)
 		n.types = []string{t.Bytes().String()}
 
